@@ -24,7 +24,12 @@ def check(ctx: Ctx) -> None:
                    "all transports signal a short read as EOFError with a message (C04.i).")
     ctx.not_decided = "equivalence of transcripts of generated channel programs (that is a differential run, not a static fact)."
     gio = repo.module("gateway_io")
-    fc = repo.func("gateway_io.serve_proxy_io.control")
+    from .C08 import proxy_callbacks
+    _cbs = proxy_callbacks(repo)
+    if "control" not in _cbs:
+        raise AnalysisError("serve_proxy_io: no callback is registered on the control channel")
+    fc, SUBN, CTLN, _creg = _cbs["control"]
+    SUBP = tuple(n + "." for n in sorted(SUBN))
 
     with ctx.obligation("C16.a", "control-codes") as ob:
         sent = {}
@@ -46,22 +51,22 @@ def check(ctx: Ctx) -> None:
         for code, (m, c) in sent.items():
             if want_sender.get(code) != m.name:
                 ob.violation(m, c, f"ProxyIO.{m.name} sends {code}: the wrong operation is requested from the forwarder")
-        p = [x for x in fc.params()][0]
+        p = [x for x in fc.params() if x != "self"][0]
         DATA = ("sym", p)
         byval = {v: k for k, v in allconsts.items() if k.startswith("RIO_")}
         evc = evaluator(repo, fc)
         arms: dict[str, list] = {}
 
         def arm_of(events, reply, where, node):
-            ops = [e.callee.split(".", 1)[1] for e in events if e.kind == "call" and e.callee and e.callee.startswith("sub_io.")]
-            if reply is not None and reply[0] == "sym" and reply[1].startswith("sub_io."):
-                ops.append(reply[1].split(".", 1)[1])
-            return (ops, reply, [e for e in events if e.kind == "call" and e.callee and e.callee.startswith("sub_io.")], where, node)
+            ops = [e.callee.rsplit(".", 1)[1] for e in events if e.kind == "call" and e.callee and e.callee.startswith(SUBP)]
+            if reply is not None and reply[0] == "sym" and reply[1].startswith(SUBP):
+                ops.append(reply[1].rsplit(".", 1)[1])
+            return (ops, reply, [e for e in events if e.kind == "call" and e.callee and e.callee.startswith(SUBP)], where, node)
 
         for path, st in evc.run(limit=4000):
             if path[-1][0] != evc.cfg.exit.id:
                 continue
-            sends = [e for e in st.events if e.kind == "call" and e.callee == "control_chan.send"]
+            sends = [e for e in st.events if e.kind == "call" and e.callee in {n + ".send" for n in CTLN}]
             eqs = [t[3][1] for (t, v) in st.cond if v is True and t[0] == "cmp" and t[1] == "eq" and t[2] == DATA and t[3][0] == "const"]
             eqs += [t[2][1] for (t, v) in st.cond if v is True and t[0] == "cmp" and t[1] == "eq" and t[3] == DATA and t[2][0] == "const"]
             if eqs:
@@ -98,13 +103,13 @@ def check(ctx: Ctx) -> None:
                 if ok and reply == "None":
                     ok = rep == ("const", None)
                 elif ok:
-                    ok = (rep[0] == "sym" and rep[1] == f"sub_io.{op}") or (rep[0] == "fresh" and calls and calls[0].result == rep)
+                    ok = (rep[0] == "sym" and rep[1] in {f"{n}.{op}" for n in SUBN}) or (rep[0] == "fresh" and calls and calls[0].result == rep)
                 ob.site(where, node, f"{code}: sub_io.{op} and exactly one reply ({reply})", ops=ops, replies=nsends)
                 if not ok:
                     ob.violation(where, node, f"the {code} arm does not perform sub_io.{op} and send exactly one reply ({reply}): the requester would block, or act on the wrong result")
         # the dispatcher is registered on the control channel; requester sends then waits for one reply
         fsp = repo.func("gateway_io.serve_proxy_io")
-        reg = [c for c in repo.calls_in(fsp) if callee_attr(c) == "setcallback" and unparse(c.func.value) == "control_chan" and unparse(c.args[0]) == "control"]
+        reg = [_creg]
         if len(reg) != 1:
             ob.violation(fsp, fsp.node, "the control dispatcher is not registered on the control channel")
         fcl = repo.func("gateway_io.ProxyIO._controll")
@@ -138,11 +143,8 @@ def check(ctx: Ctx) -> None:
     with ctx.obligation("C16.c", "forwarding-identity") as ob:
         from .C08 import check as _c08  # noqa: F401  (same module provides the logic below)
         fsp = repo.func("gateway_io.serve_proxy_io")
-        ffs = repo.func("gateway_io.serve_proxy_io.forward_to_sub")
-        ws = [c for c in repo.calls_in(ffs) if callee_attr(c) == "write"]
-        ob.site(ffs, ws[0] if ws else ffs.node, "master->sub: bytes written unmodified")
-        if len(ws) != 1 or unparse(ws[0].args[0]) != ffs.params()[0] or unparse(ws[0].func.value) != "sub_io":
-            ob.violation(ffs, ffs.node, "forward_to_sub does not write exactly the received bytes to the sub process")
+        from .C08 import check_forward_to_sub
+        check_forward_to_sub(ob, repo)
         from .C08 import check_forwarder_loop
         check_forwarder_loop(ob, repo)
 
